@@ -5,7 +5,28 @@ def S(name, nq, nt, **kw):
     d.update(kw)
     return d
 
+VDB_RULE = ("vdb stream: one evaluation = one operation (commit on frontier / on a stale parent, pop, open view at a current, "
+            "abandoned, unknown, wrong-height or zero id, get, has, ordered prefix scan, put, delete, snapshot, subset, changes, "
+            "apply) executed on a real NewLevelDBManager / NewMemDB and replayed through the Lean model; keys share prefixes, "
+            "values include empty and [0]; every open view is re-validated in full against a shadow map after later "
+            "commits/pops; distinct = distinct (op,result) lines")
+
 PROPS = {
+    "C07": {
+        "module": "ZenonVerif.Props.C07",
+        "streams": [S("vdb", 400, 20000)],
+        "rule": VDB_RULE,
+        "partial": "concurrency (readers vs writer) is not modelled: sequential model + mutex/snapshot isolation trusted; "
+                   "the l1/l2 caches are not in the model (cache-free reconstruction), the cached code is compared by correspondence; "
+                   "historical scans drop empty-valued keys (known finding F3b)",
+        "assumptions": ["goleveldb snapshot isolation and memdb thread-safety", "sequential executions only"],
+    },
+    "C06": {
+        "module": "ZenonVerif.Props.C06",
+        "streams": [S("vdb", 400, 20000, arg="mix=pop")],
+        "rule": VDB_RULE + "; pop-heavy mix: views are opened before a branch switch and re-read after it",
+        "partial": "pool-after-switch and consensus statistics after a switch are covered by the two-node sync stream (C02), not by theorems yet",
+    },
     "C12": {
         "module": "ZenonVerif.Props.C12",
         "streams": [S("pow", 20000, 1000000)],
